@@ -1034,6 +1034,63 @@ type cconn struct {
 
 const ioWatchdog = 100 * time.Second
 
+// failingTunnels opens three connections, sends CONNECT on each and then
+// makes the TLS handshake with the MITM proxy fail in three ways: the client
+// does not trust the proxy's CA (it aborts with an alert after the
+// certificate), the client sends a handshake record type byte followed by
+// garbage, and the client closes in the middle of the handshake (after a
+// truncated ClientHello record header). Returns how many connections the
+// proxy accepted.
+func failingTunnels(r *vh.Run, addr string) int {
+	n := 0
+	pre := serveIDs()
+	var cs []net.Conn
+	for i := 0; i < 3; i++ {
+		cn, err := net.Dial("tcp", addr)
+		if err != nil {
+			break
+		}
+		cs = append(cs, cn)
+	}
+	deadline := time.Now().Add(30 * time.Second)
+	for newOf(serveIDs(), pre) < len(cs) && time.Now().Before(deadline) {
+		time.Sleep(2 * time.Millisecond)
+	}
+	for i, cn := range cs {
+		n++
+		cn.SetDeadline(time.Now().Add(20 * time.Second))
+		br := bufio.NewReader(cn)
+		if _, err := cn.Write([]byte("CONNECT origin.test:443 HTTP/1.1\r\nHost: origin.test:443\r\n\r\n")); err != nil {
+			cn.Close()
+			continue
+		}
+		res, err := http.ReadResponse(br, &http.Request{Method: "CONNECT"})
+		if err != nil || res.StatusCode != 200 {
+			cn.Close()
+			continue
+		}
+		switch i {
+		case 0: // untrusted CA: the client's handshake fails after the proxy's certificate
+			tc := tls.Client(cn, &tls.Config{ServerName: "origin.test", RootCAs: x509.NewCertPool()})
+			if err := tc.Handshake(); err == nil {
+				r.Inconclusive("a TLS client without any trusted CA completed the handshake with the MITM proxy", nil)
+			}
+			r.Count("failed_handshakes_untrusted_ca", 1)
+		case 1: // handshake record type, then garbage
+			cn.Write([]byte{22, 3, 1, 0, 40})
+			cn.Write(bytes.Repeat([]byte{0xAA}, 40))
+			cn.SetReadDeadline(time.Now().Add(300 * time.Millisecond))
+			io.Copy(io.Discard, io.LimitReader(br, 4096)) // the proxy's alert, if it sends one (the proxy may keep the connection open)
+			r.Count("failed_handshakes_garbage", 1)
+		case 2: // closes mid-handshake
+			cn.Write([]byte{22, 3, 1})
+			r.Count("failed_handshakes_closed_midway", 1)
+		}
+		cn.Close()
+	}
+	return n
+}
+
 // tunnel issues CONNECT origin.test:443, completes a TLS handshake with the
 // MITM proxy (certificate verified against the child's CA) and switches the
 // connection to the decrypted stream.
@@ -1556,6 +1613,43 @@ func genThrottleScenario(r *vh.Run, sc scenCase) *scenario {
 	return s
 }
 
+// genGlobalCapScenario: the shape's max_global_bandwidth is the bottleneck -
+// lower than the bandwidth of a throttle that covers the response (or with no
+// throttle at all) - and two or three connections fetch matching responses at
+// the same time, so that the shared global bucket regularly has less room
+// than a connection's own bucket. Bytes and cuts are judged as everywhere;
+// no delay is asserted for the global cap.
+func genGlobalCapScenario(r *vh.Run, sc scenCase) *scenario {
+	rng := r.Rng(sc.Stream+"/gcap", sc.Idx)
+	capBW := int64(300 + rng.Intn(500))
+	n := capBW*2 + int64(rng.Intn(int(capBW)))
+	s := &scenario{Profile: "thr", Variant: "global-cap", Res: []int64{n, n, n}}
+	slot := rng.Intn(3)
+	sh := shapex.Shape{Slot: slot, Regex: shapex.RegexFor(rng, slot), MaxBW: capBW}
+	switch rng.Intn(3) {
+	case 0:
+		sh.Throttles = []shapex.Throttle{{Start: 0, End: -1, BW: capBW * int64(2+rng.Intn(3))}}
+	case 1:
+		a := rng.Int63n(n / 2)
+		sh.Throttles = []shapex.Throttle{{Start: a, End: a + n/3, BW: capBW * int64(2+rng.Intn(3))}}
+	}
+	if rng.Intn(2) == 0 {
+		sh.Halts = []shapex.Halt{{Byte: rng.Int63n(n), DurMs: int64(10 + rng.Intn(50)), Count: -1}}
+	}
+	cfg := &shapex.Config{Class: "valid", Shapes: []shapex.Shape{sh}}
+	conc := 2 + rng.Intn(2)
+	reqs := map[int][]reqSpec{}
+	for i := 0; i < conc; i++ {
+		q := reqSpec{Slot: slot, ID: 500 + uint32(i%2), N: n, S: -1, E: -1, W: rng.Int63n(1 << 40)}
+		if rng.Intn(3) == 0 {
+			q.S = rng.Int63n(n / 2)
+		}
+		reqs[i] = []reqSpec{q}
+	}
+	s.Phases = []phase{{Pre: cfg, Open: conc, Reqs: reqs}}
+	return s
+}
+
 // genShareScenario: 6-8 connections hammer one or two shapes whose many
 // short always-firing halts make every response take the shape's write lock
 // several times while other connections start responses (which read the same
@@ -1753,6 +1847,12 @@ func runScenario(r *vh.Run, c scenCase, s *scenario, skipCensus *bool) *state {
 				conns[id].dead = true
 			}
 		}
+	}
+	if s.MITM && !watchdog && !st.isStalled() {
+		// tunnels whose TLS handshake fails: whatever the proxy created for them
+		// on the way has to go when they are closed, like for any other
+		// connection of the shaped listener
+		totalConns += failingTunnels(r, g.addr)
 	}
 	for _, cc := range conns {
 		if s.Abrupt {
@@ -2239,7 +2339,7 @@ func run(r *vh.Run, batch string) {
 	case "px":
 		n = r.Pick(10, 120)
 	case "thr":
-		n = r.Pick(3, 20)
+		n = r.Pick(4, 20)
 	case "dir":
 		n = r.Pick(60, 250)
 	case "cfg":
@@ -2282,7 +2382,13 @@ func runCase(r *vh.Run, c scenCase, skip *bool) {
 		var s *scenario
 		switch c.Profile {
 		case "thr":
-			s = genThrottleScenario(r, c)
+			// the last scenario of a quick thr batch (every fifth in thorough) is a
+			// global-cap scenario
+			if (r.Thorough() && c.Idx%5 == 4) || (!r.Thorough() && c.Idx == 3) {
+				s = genGlobalCapScenario(r, c)
+			} else {
+				s = genThrottleScenario(r, c)
+			}
 		case "share":
 			s = genShareScenario(r, c)
 		default:
@@ -2304,6 +2410,9 @@ func sampleOf(r *vh.Run, c scenCase) interface{} {
 	switch c.Profile {
 	case "thr":
 		s = genThrottleScenario(r, c)
+		if (r.Thorough() && c.Idx%5 == 4) || (!r.Thorough() && c.Idx == 3) {
+			s = genGlobalCapScenario(r, c)
+		}
 	case "share":
 		s = genShareScenario(r, c)
 	default:
